@@ -83,6 +83,7 @@ func (vc *VC) verifyFunction() {
 	st := &State{pc: "true", heap: map[string]string{}}
 	fr := &Frame{fn: fn, spec: vc.spec, env: map[ssa.Value]Val{}, params: map[string]Val{}, callOrd: map[string]int{}, top: true}
 	vc.comp("$next", "Int")
+	vc.predeclareSliceUFs(fnPkg(fn))
 	for _, p := range fn.Params {
 		v := vc.freshVal(st, p.Type(), "p."+p.Name())
 		if v.Sl != nil {
@@ -147,10 +148,39 @@ func (vc *VC) verifyFunction() {
 	// cover: some return reachable
 	vc.obls = append(vc.obls, &Obligation{Name: vc.fnName() + "#cover.return", Fn: vc.fnName(), Pc: exit.pc, Goal: "true", NLines: len(vc.lines), Kind: "cover", Vacuity: true})
 	if vc.spec != nil {
+		// per-return result bindings: each postcondition is evaluated in the state of every return
+		// separately (no merged heap arrays), and the obligation is the conjunction over the returns
+		retResults := make([]map[string]Val, len(rets))
+		for ri, r := range rets {
+			m := map[string]Val{}
+			for i := 0; i < sig.Results().Len(); i++ {
+				rv := r.vals[i]
+				m[fmt.Sprintf("ret%d", i)] = rv
+				if n := sig.Results().At(i).Name(); n != "" && n != "_" {
+					m[n] = rv
+				}
+				if sig.Results().Len() == 1 {
+					m["ret"] = rv
+				}
+				if types.Identical(sig.Results().At(i).Type(), errorType) && i == sig.Results().Len()-1 {
+					if _, ok := m["err"]; !ok {
+						m["err"] = rv
+					}
+				}
+			}
+			retResults[ri] = m
+		}
 		for _, c := range vc.spec.Ensures {
-			env := vc.specEnv(fr, exit, fr.oldSt, results)
-			f := vc.trBool(env, c.E)
-			o := vc.obligeNoAssume(exit, fmt.Sprintf("%s#ensures.%d", vc.fnName(), c.Idx), "ensures", f, c.Src, fn.Pos())
+			var parts []string
+			for ri, r := range rets {
+				env := vc.specEnv(fr, r.st, fr.oldSt, retResults[ri])
+				parts = append(parts, fmt.Sprintf("(=> %s %s)", r.cond, vc.trBool(env, c.E)))
+			}
+			f := parts[0]
+			if len(parts) > 1 {
+				f = "(and " + strings.Join(parts, " ") + ")"
+			}
+			o := vc.obligeNoAssume(&State{pc: "true"}, fmt.Sprintf("%s#ensures.%d", vc.fnName(), c.Idx), "ensures", f, c.Src, fn.Pos())
 			o.Tag = c.Tag
 		}
 		if vc.spec.HasMod {
@@ -361,6 +391,11 @@ func (vc *VC) execBody(fr *Frame, st0 *State) []retInfo {
 			}
 		} else {
 			st = vc.loopHead(fr, li, st, phis, entryPhi)
+		}
+		for _, ph := range phis {
+			if ph.Comment != "" && ph.Comment != "rangeindex" && !strings.Contains(ph.Comment, ".") {
+				st.setLocal(ph.Comment, fr.env[ph])
+			}
 		}
 		ex := vc.execBlock(fr, b, st, len(phis), &rets)
 		exits[b] = ex
@@ -641,14 +676,11 @@ func (vc *VC) execInstr(fr *Frame, in ssa.Instruction, st *State) {
 	case *ssa.DebugRef:
 		if id, ok := x.Expr.(*ast.Ident); ok && id.Name != "_" {
 			if _, isVar := x.Object().(*types.Var); isVar {
-				if fr.locals == nil {
-					fr.locals = map[string]Val{}
-				}
 				v := vc.operand(fr, x.X)
 				if x.IsAddr {
 					v = Val{Addr: vc.addrOfPtr(v), Typ: v.Typ, Sort: "addr"}
 				}
-				fr.locals[id.Name] = v
+				st.setLocal(id.Name, v)
 			}
 		}
 	case *ssa.Go:
